@@ -8,6 +8,7 @@ Model: `viewEquals` / `typeEquals` / `tryCopy` / `arenaCopy` in Emboss/Model/Vie
 import Emboss.Lemmas.Equals
 import Emboss.Lemmas.Locality
 import Emboss.Properties.C01
+import Emboss.Lemmas.ViewRefLogEq
 namespace Emboss.View
 
 /-- `Equals` is symmetric (for two views of the same structure type). -/
@@ -196,185 +197,279 @@ example :
     tryCopy (G exM 6) exM exSd [] [7, 7, 1, 5, 0, 9, 7, 7] 2 6 4 4 = (true, [7, 7, 1, 5, 1, 5, 0, 9]) := by
   decide
 
-/-! ### Equals is logical equality as the reference semantics defines it (flat structures)
+/-! ### Equals is logical equality as the reference semantics defines it
 
 Full statement (`C20_equals_iff_logical`): for two views of the same structure type, `Equals` is
 true exactly when both agree on which fields are present and every present physical field
 (recursively, element by element for arrays) reads equal.  "Present" and "reads" are the
 reference semantics' notions: `LogicallyEqual` (Spec/ViewRef.lean) is stated over R-facts only.
-Proved for the fragment of `C01_G_equals_R_partial` (flat byte structures: UInt/Int scalars at
-dynamic offsets, conditions, virtual fields, parameters, [requires]); nested structures, bits and
-arrays stay with the Python reference (`embref.logical_equal`, every EQ command of every run). -/
+Proved (round 3) for **every view of the fragment of `C01_G_equals_R_partial` whose own physical
+fields are scalars** — a byte structure *or a `bits` container with sub-byte fields*, at the top
+of a message or nested anywhere (the windows `sa`, `sb` are arbitrary: byte windows or container
+numbers), with conditions, dynamic offsets, virtual fields, aliases, parameters, `[requires]`.
+Round 2 had top-level flat byte structures only.  The recursion through fields of structure type
+and arrays stays with the Python reference (`embref.logical_equal`, every EQ command of every
+run). -/
 
 open Emboss.ViewRef in
-theorem C20_equals_iff_logical_partial (m : Module) (sd : StructDef) (hflat : flatStruct sd = true)
-    (hloc : reqLocal sd = true) (huniq : namesUnique sd) (ps : List Val) (a b : List Nat) (n k : Nat)
+theorem C20_equals_iff_logical_partial (m : Module) (hwfm : moduleWF m = true) (sd : StructDef) (d : Nat)
+    (hfr : reachOK m d sd = true) (hsc : scalarFields sd = true) (huniq : namesUnique sd)
+    (ps : Option (List Val)) (sa sb : Storage)
+    (hwa : viewWF { sd := sd, params := ps, st := sa } = true)
+    (hwb : viewWF { sd := sd, params := ps, st := sb } = true) (n k : Nat)
     (hfuel : ∀ f ∈ sd.fields, need m (n + 1) sd [f.name] = true) :
-    viewEquals (G m n) m (k + 1) (rootView sd ps a) (rootView sd ps b) = true ↔
-      LogicallyEqual sd ps a b := by
-  have hsd : (rootView sd ps a).sd = sd := rfl
-  simp only [viewEquals, hsd, Bool.and_eq_true, List.all_eq_true]
+    viewEquals (G m n) m (k + 1) { sd := sd, params := ps, st := sa } { sd := sd, params := ps, st := sb } = true ↔
+      LogicallyEqual m { sd := sd, params := ps, st := sa } { sd := sd, params := ps, st := sb } := by
+  have hm := closed_reach m
+  have hP : ∃ d, reachOK m d sd = true := ⟨d, hfr⟩
+  have hscf : ∀ f ∈ sd.fields, ∀ start size ty bo, f.kind = .phys start size ty bo →
+      ∃ kk bits req, ty = .scalar kk bits req := by
+    intro f hfm start size ty bo hk
+    unfold scalarFields at hsc
+    simp only [List.all_eq_true] at hsc
+    have := hsc f hfm
+    rw [hk] at this
+    cases ty with
+    | scalar kk bits req => exact ⟨kk, bits, req, rfl⟩
+    | struct a b c => cases this
+    | array a b => cases this
+  simp only [viewEquals, Bool.and_eq_true, List.all_eq_true, LogicallyEqual]
   constructor
   · intro ⟨_, h⟩ f hfm hphys
     have hf := huniq f hfm
     have hfe := h f hfm
-    have hff := flat_of_field hflat hf
-    unfold flatField at hff
-    simp only [Bool.and_eq_true] at hff
     cases hk : f.kind with
-    | alias t => rw [hk] at hff; cases hff.2
+    | alias t => simp [isPhys, hk] at hphys
     | virt v r => simp [isPhys, hk] at hphys
     | phys start size ty bo =>
-      rw [hk] at hff
-      cases ty with
-      | struct x y z => cases hff.2
-      | array x y => cases hff.2
-      | scalar kk bits req =>
-        rw [fieldEquals_scalar m n sd ps a b _ hf hk] at hfe
-        cases hA : (G m (n + 1)).has (rootView sd ps a) [f.name] with
-        | none => rw [hA] at hfe; simp at hfe
-        | some ha =>
-          cases hB : (G m (n + 1)).has (rootView sd ps b) [f.name] with
-          | none => rw [hA, hB] at hfe; simp at hfe
-          | some hb =>
-            rw [hA, hB] at hfe
-            simp only [Bool.and_eq_true, beq_iff_eq, Bool.or_eq_true, Bool.not_eq_true'] at hfe
-            obtain ⟨hab, hval⟩ := hfe
-            subst hab
-            refine ⟨ha, (G_sound m sd hflat ps a (n + 1)).2 _ _ hA, (G_sound m sd hflat ps b (n + 1)).2 _ _ hB, ?_⟩
-            intro hc
-            subst hc
-            rcases hval with hval | hval
-            · cases hval
-            · cases hRA : (G m (n + 1)).read (rootView sd ps a) [f.name] with
-              | none => rw [hRA] at hval; simp at hval
-              | some x =>
-                cases hRB : (G m (n + 1)).read (rootView sd ps b) [f.name] with
-                | none => rw [hRA, hRB] at hval; simp at hval
-                | some y =>
-                  rw [hRA, hRB] at hval
-                  simp only [beq_iff_eq] at hval
-                  subst hval
-                  exact ⟨x, (G_sound m sd hflat ps a (n + 1)).1 _ _ hRA,
-                    (G_sound m sd hflat ps b (n + 1)).1 _ _ hRB⟩
+      obtain ⟨kk, bits, req, hty⟩ := hscf f hfm start size ty bo hk
+      subst hty
+      rw [fieldEquals_scalar m n ⟨sd, ps, sa⟩ ⟨sd, ps, sb⟩ rfl _ hf hk] at hfe
+      cases hA : (G m (n + 1)).has { sd := sd, params := ps, st := sa } [f.name] with
+      | none => rw [hA] at hfe; simp at hfe
+      | some ha =>
+        cases hB : (G m (n + 1)).has { sd := sd, params := ps, st := sb } [f.name] with
+        | none => rw [hA, hB] at hfe; simp at hfe
+        | some hb =>
+          rw [hA, hB] at hfe
+          simp only [Bool.and_eq_true, beq_iff_eq, Bool.or_eq_true, Bool.not_eq_true'] at hfe
+          obtain ⟨hab, hval⟩ := hfe
+          subst hab
+          refine ⟨ha, (G_sound m hm (n + 1) _ hP hwa).2 _ _ hA, (G_sound m hm (n + 1) _ hP hwb).2 _ _ hB, ?_⟩
+          intro hc
+          subst hc
+          rcases hval with hval | hval
+          · cases hval
+          · cases hRA : (G m (n + 1)).read { sd := sd, params := ps, st := sa } [f.name] with
+            | none => rw [hRA] at hval; simp at hval
+            | some x =>
+              cases hRB : (G m (n + 1)).read { sd := sd, params := ps, st := sb } [f.name] with
+              | none => rw [hRA, hRB] at hval; simp at hval
+              | some y =>
+                rw [hRA, hRB] at hval
+                simp only [beq_iff_eq] at hval
+                subst hval
+                exact ⟨x, (G_sound m hm (n + 1) _ hP hwa).1 _ _ hRA,
+                  (G_sound m hm (n + 1) _ hP hwb).1 _ _ hRB⟩
   · intro h
-    refine ⟨by simp [rootView], ?_⟩
+    refine ⟨by cases ps <;> simp, ?_⟩
     intro f hfm
     have hf := huniq f hfm
-    have hff := flat_of_field hflat hf
-    unfold flatField at hff
-    simp only [Bool.and_eq_true] at hff
     cases hk : f.kind with
-    | alias t => rw [hk] at hff; cases hff.2
+    | alias t => simp only [fieldEquals, hk]
     | virt v r => simp only [fieldEquals, hk]
     | phys start size ty bo =>
-      rw [hk] at hff
-      cases ty with
-      | struct x y z => cases hff.2
-      | array x y => cases hff.2
-      | scalar kk bits req =>
-        obtain ⟨c, fa, fb, hv⟩ := h f hfm (by simp [isPhys, hk])
-        have hn := hfuel f hfm
-        have hA := G_complete m sd hflat hloc ps a (n + 1) _ fa hn
-        have hB := G_complete m sd hflat hloc ps b (n + 1) _ fb hn
-        try simp only at hA hB
-        rw [fieldEquals_scalar m n sd ps a b _ hf hk, hA, hB]
-        cases c with
-        | false => simp
-        | true =>
-          obtain ⟨v, va, vb⟩ := hv rfl
-          have hRA := G_complete m sd hflat hloc ps a (n + 1) _ va hn
-          have hRB := G_complete m sd hflat hloc ps b (n + 1) _ vb hn
-          try simp only at hRA hRB
-          rw [hRA, hRB]
-          simp
+      obtain ⟨kk, bits, req, hty⟩ := hscf f hfm start size ty bo hk
+      subst hty
+      obtain ⟨c, fa, fb, hv⟩ := h f hfm (by simp [isPhys, hk])
+      have hn := hfuel f hfm
+      have hA := G_complete m hm hwfm (n + 1) _ _ fa hP hwa hn
+      have hB := G_complete m hm hwfm (n + 1) _ _ fb hP hwb hn
+      rw [fieldEquals_scalar m n ⟨sd, ps, sa⟩ ⟨sd, ps, sb⟩ rfl _ hf hk, hA, hB]
+      cases c with
+      | false => simp
+      | true =>
+        obtain ⟨v, va, vb⟩ := hv rfl
+        have hRA := G_complete m hm hwfm (n + 1) _ _ va hP hwa hn
+        have hRB := G_complete m hm hwfm (n + 1) _ _ vb hP hwb hn
+        rw [hRA, hRB]
+        simp
 
-/-- non-vacuity: on C01's flat example (`n`, conditional `y` at offset `n + 1`, virtual `v`)
-`01 00 fe` and `01 77 fe` are Equal — byte 1 is covered by no field — and `01 00 fd` is not; so
-by the theorem the first pair is logically equal in the reference's sense and the second is not. -/
+/-- non-vacuity: (i) C01's flat example (`n`, conditional `y` at offset `n + 1`, virtual `v`):
+`01 00 fe` and `01 77 fe` are Equal — byte 1 is covered by no field — and `01 00 fd` is not;
+(ii) the `bits` container `Bf` (`a` = bit 0, `b` = bits 1–3, `c` = bits 4–7) as a view over the
+numbers 0xa5 / 0xa5 / 0xa4: equal / differing in the flag.  So by the theorem the first pairs are
+logically equal in the reference's sense and the second are not. -/
 example :
-    viewEquals (G { structs := [exFlat] } 3) { structs := [exFlat] } 1
+    viewEquals (G exNest 3) exNest 1
       (rootView exFlat [.int 7] [1, 0, 254]) (rootView exFlat [.int 7] [1, 119, 254]) = true ∧
-    viewEquals (G { structs := [exFlat] } 3) { structs := [exFlat] } 1
+    viewEquals (G exNest 3) exNest 1
       (rootView exFlat [.int 7] [1, 0, 254]) (rootView exFlat [.int 7] [1, 0, 253]) = false ∧
-    (∀ f ∈ exFlat.fields, need { structs := [exFlat] } 4 exFlat [f.name] = true) := by
+    (∀ f ∈ exFlat.fields, need exNest 4 exFlat [f.name] = true) ∧
+    viewEquals (G exNest 3) exNest 1
+      { sd := exBits, params := some [], st := .bits (some 165) 8 }
+      { sd := exBits, params := some [], st := .bits (some 165) 8 } = true ∧
+    viewEquals (G exNest 3) exNest 1
+      { sd := exBits, params := some [], st := .bits (some 165) 8 }
+      { sd := exBits, params := some [], st := .bits (some 164) 8 } = false ∧
+    Emboss.ViewRef.scalarFields exBits = true ∧ Emboss.ViewRef.scalarFields exFlat = true ∧
+    Emboss.ViewRef.viewWF { sd := exBits, params := some [], st := .bits (some 165) 8 } = true ∧
+    (∀ f ∈ exBits.fields, need exNest 4 exBits [f.name] = true) := by
   decide
 
-/-! ### reflexivity of Equals on Ok views (flat structures)
+/-! ### … recursively through fields of structure / `bits` type
 
-`C20_copy_dest_equals_src_partial` reduces "after a copy the destination Equals the source" to
-`src.Equals(src)`.  For flat structures that is now proved: an Ok view Equals itself (every
-presence is known and every present field is readable, which is what the per-field clauses of
-the generated `Equals` need).  For nested structures / arrays it is still checked on the real
-code only (post-copy follow-up commands of harness/corr/C20.py). -/
+`LogEq m k` (Spec/ViewRef.lean) is C20's statement with the recursion spelled out: same
+parameters, same presence of every physical field, equal values of present scalar fields, and for
+a present field of structure / `bits` type the two views *R assigns to the field* (`SubViewR`:
+inner definition, argument values, sub-window — the premises of R's rule `sub`) are logically
+equal one level down.  The theorem holds for every family `P` of structures of the refinement fragment closed under
+"type of a field", without array fields (`ModOK`: e.g. all structures of a module, or the ones
+reachable from one structure; arrays: the generated `Equals` compares clamped element counts, which R
+defines for complete arrays only — stays with the Python reference and the post-copy follow-ups),
+every pair of views of a structure of the module, every fuel `k` (= nesting depth explored, the
+same on both sides; `k = 0` is "out of fuel" = `false` on both). -/
 
 open Emboss.ViewRef in
-theorem C20_equals_reflexive_partial (m : Module) (hm : moduleWF m = true) (sd : StructDef)
-    (hsd : structWF m sd = true) (hflat : flatStruct sd = true) (huniq : namesUnique sd)
-    (ps : List Val) (a : List Nat) (n k : Nat)
-    (hok : (G m (n + 1)).okAt (rootView sd ps a) [] = true) :
-    viewEquals (G m (n + 1)) m (k + 1) (rootView sd ps a) (rootView sd ps a) = true := by
-  have hsda : (rootView sd ps a).sd = sd := rfl
-  simp only [viewEquals, hsda, Bool.and_eq_true, List.all_eq_true]
-  refine ⟨by simp [rootView], ?_⟩
+theorem C20_equals_iff_logical_nested_partial (m : Module) (n : Nat) (P : StructDef → Prop)
+    (h : ModOK m n P) (k : Nat) (wa wb : SView) (hP : P wa.sd) (hsd : wb.sd = wa.sd)
+    (hwa : viewWF wa = true) (hwb : viewWF wb = true) :
+    viewEquals (G m n) m k wa wb = true ↔ LogEq m k wa wb :=
+  viewEquals_iff_logEq m n h k wa wb hP hsd hwa hwb
+
+/-- `struct Out2: 0 [+1] UInt n / if n > 0: n [+2] In(n) in / let v = in.s` (C01's nested example
+without its array) -/
+def exOuter2 : StructDef :=
+  { exOuter with name := "Out2", fields := exOuter.fields.take 3 }
+
+def exNest2 : Module := { structs := [exOuter2, exInner, exBits] }
+
+open Emboss.ViewRef in
+theorem exNest2_ok : ModOK exNest2 6 (fun sd => sd ∈ exNest2.structs) where
+  closed := closed_of_refModule (by decide) (by decide)
+  wf := by decide
+  noarr := by
+    intro sd hsd
+    simp only [exNest2, List.mem_cons, List.not_mem_nil, or_false] at hsd
+    rcases hsd with rfl | rfl | rfl <;> decide
+  fuel := by
+    intro sd hsd
+    simp only [exNest2, List.mem_cons, List.not_mem_nil, or_false] at hsd
+    rcases hsd with rfl | rfl | rfl <;> decide
+  uniq := by
+    intro sd hsd
+    simp only [exNest2, List.mem_cons, List.not_mem_nil, or_false] at hsd
+    rcases hsd with rfl | rfl | rfl <;> intro f hf
+    · simp only [exOuter2, exOuter, List.take, List.mem_cons, List.not_mem_nil, or_false] at hf
+      rcases hf with rfl | rfl | rfl <;> rfl
+    · simp only [exInner, List.mem_cons, List.not_mem_nil, or_false] at hf
+      rcases hf with rfl | rfl | rfl | rfl | rfl | rfl <;> rfl
+    · simp only [exBits, List.mem_cons, List.not_mem_nil, or_false] at hf
+      rcases hf with rfl | rfl | rfl <;> rfl
+
+/-- non-vacuity: `02 ff 07 a5` vs `02 00 07 a5` (byte 1 is covered by no field: equal, through the
+nested `In(2)` and its `bits` container) vs `02 ff 07 a4` (the flag inside the container inside
+the nested structure differs: not equal); hence, by the theorem, `LogEq` holds / fails. -/
+example :
+    viewEquals (G exNest2 6) exNest2 3 (rootView exOuter2 [] [2, 255, 7, 165])
+      (rootView exOuter2 [] [2, 0, 7, 165]) = true ∧
+    viewEquals (G exNest2 6) exNest2 3 (rootView exOuter2 [] [2, 255, 7, 165])
+      (rootView exOuter2 [] [2, 255, 7, 164]) = false := by
+  decide
+
+open Emboss.ViewRef in
+example : LogEq exNest2 3 (rootView exOuter2 [] [2, 255, 7, 165]) (rootView exOuter2 [] [2, 0, 7, 165]) ∧
+    ¬ LogEq exNest2 3 (rootView exOuter2 [] [2, 255, 7, 165]) (rootView exOuter2 [] [2, 255, 7, 164]) := by
+  have hmem : ∀ d, (rootView exOuter2 [] d).sd ∈ exNest2.structs := fun _ => List.mem_cons_self
+  constructor
+  · exact (C20_equals_iff_logical_nested_partial exNest2 6 _ exNest2_ok 3
+      (rootView exOuter2 [] [2, 255, 7, 165]) (rootView exOuter2 [] [2, 0, 7, 165])
+      (hmem _) rfl (by decide) (by decide)).mp (by decide)
+  · intro hc
+    have := (C20_equals_iff_logical_nested_partial exNest2 6 _ exNest2_ok 3
+      (rootView exOuter2 [] [2, 255, 7, 165]) (rootView exOuter2 [] [2, 255, 7, 164])
+      (hmem _) rfl (by decide) (by decide)).mpr hc
+    revert this
+    decide
+
+/-! ### reflexivity of Equals on Ok views
+
+`C20_copy_dest_equals_src_partial` reduces "after a copy the destination Equals the source" to
+`src.Equals(src)`.  Proved for every view whose own physical fields are scalars (byte structure
+or `bits` container): an Ok view Equals itself (every presence is known and every present field is
+readable, which is what the per-field clauses of the generated `Equals` need).  For structures
+with fields of structure type / arrays it is still checked on the real code only (post-copy
+follow-up commands of harness/corr/C20.py). -/
+
+open Emboss.ViewRef in
+theorem C20_equals_reflexive_partial (m : Module) (hm : moduleWF m = true) (w : SView)
+    (hsd : structWF m w.sd = true) (hsc : scalarFields w.sd = true) (huniq : namesUnique w.sd)
+    (n k : Nat) (hok : (G m (n + 1)).okAt w [] = true) :
+    viewEquals (G m (n + 1)) m (k + 1) w w = true := by
+  simp only [viewEquals, Bool.and_eq_true, List.all_eq_true]
+  refine ⟨by cases w.params <;> simp, ?_⟩
   intro f hfm
   have hf := huniq f hfm
   -- what Ok() of the view says about this field
-  simp only [G, step, hsda, Bool.and_eq_true, List.all_eq_true] at hok
+  simp only [G, step, Bool.and_eq_true, List.all_eq_true] at hok
   have hfield := hok.1.2 f hfm
-  have hff := flat_of_field hflat hf
-  unfold flatField at hff
-  simp only [Bool.and_eq_true] at hff
   cases hk : f.kind with
-  | alias t => rw [hk] at hff; cases hff.2
+  | alias t => simp only [fieldEquals, hk]
   | virt v r => simp only [fieldEquals, hk]
   | phys start size ty bo =>
-    rw [hk] at hff
-    cases ty with
-    | struct x y z => cases hff.2
-    | array x y => cases hff.2
-    | scalar kk bits req =>
-      cases n with
-      | zero => simp [G, Oracle.bottom] at hfield
-      | succ n' =>
-        have up2r : ∀ v, (G m (n' + 1)).read (rootView sd ps a) [f.name] = some v →
-            (G m (n' + 3)).read (rootView sd ps a) [f.name] = some v := fun v h =>
-          (C01_fuel_monotone m hm _ hsd (n' + 2)).1 _ _ ((C01_fuel_monotone m hm _ hsd (n' + 1)).1 _ _ h)
-        have up2h : ∀ c, (G m (n' + 1)).has (rootView sd ps a) [f.name] = some c →
-            (G m (n' + 3)).has (rootView sd ps a) [f.name] = some c := fun c h =>
-          (C01_fuel_monotone m hm _ hsd (n' + 2)).2 _ _ ((C01_fuel_monotone m hm _ hsd (n' + 1)).2 _ _ h)
-        rw [fieldEquals_scalar m (n' + 2) sd ps a a _ hf hk]
-        cases hh : (G m (n' + 1)).has (rootView sd ps a) [f.name] with
-        | none => rw [hh] at hfield; cases hfield
-        | some c =>
-          rw [up2h c hh]
-          cases c with
-          | false => simp
-          | true =>
-            rw [hh] at hfield
-            simp only at hfield
-            -- `(G (n'+1)).okAt w [f.name]`: the leaf is readable
-            simp only [G, step, hsda, hf, hk] at hfield
-            have hrd := step_read_scalar m n' sd ps a hf hk
-            cases hst : physStorage (G m n') (rootView sd ps a) f start size with
-            | none => rw [hst] at hfield; simp at hfield
-            | some st =>
-              rw [hst] at hfield hrd
-              simp only [argsKnown, typeOk, Bool.true_and, hsda] at hfield
-              cases hl : leafRead (G m n') (rootView sd ps a) kk bits req (st.adaptFor sd.unit 1 bo bits) with
-              | none => rw [hl] at hfield; simp at hfield
-              | some v =>
-                simp only at hrd
-                rw [hl] at hrd
-                rw [show n' + 2 + 1 = n' + 3 from rfl, up2r v hrd]
-                simp
+    have hty : ∃ kk bits req, ty = .scalar kk bits req := by
+      unfold scalarFields at hsc
+      simp only [List.all_eq_true] at hsc
+      have := hsc f hfm
+      rw [hk] at this
+      cases ty with
+      | scalar kk bits req => exact ⟨kk, bits, req, rfl⟩
+      | struct a b c => cases this
+      | array a b => cases this
+    obtain ⟨kk, bits, req, hty⟩ := hty
+    subst hty
+    cases n with
+    | zero => simp [G, Oracle.bottom] at hfield
+    | succ n' =>
+      have up2r : ∀ v, (G m (n' + 1)).read w [f.name] = some v →
+          (G m (n' + 3)).read w [f.name] = some v := fun v h =>
+        (C01_fuel_monotone m hm _ hsd (n' + 2)).1 _ _ ((C01_fuel_monotone m hm _ hsd (n' + 1)).1 _ _ h)
+      have up2h : ∀ c, (G m (n' + 1)).has w [f.name] = some c →
+          (G m (n' + 3)).has w [f.name] = some c := fun c h =>
+        (C01_fuel_monotone m hm _ hsd (n' + 2)).2 _ _ ((C01_fuel_monotone m hm _ hsd (n' + 1)).2 _ _ h)
+      rw [fieldEquals_scalar m (n' + 2) w w rfl _ hf hk]
+      cases hh : (G m (n' + 1)).has w [f.name] with
+      | none => rw [hh] at hfield; cases hfield
+      | some c =>
+        rw [up2h c hh]
+        cases c with
+        | false => simp
+        | true =>
+          rw [hh] at hfield
+          simp only at hfield
+          -- `(G (n'+1)).okAt w [f.name]`: the leaf is readable
+          simp only [G, step, hf, hk] at hfield
+          have hrd : (G m (n' + 1)).read w [f.name] = _ := step_read_scalar m (G m n') w hf hk
+          cases hst : physStorage (G m n') w f start size with
+          | none => rw [hst] at hfield; simp at hfield
+          | some st =>
+            rw [hst] at hfield hrd
+            simp only [argsKnown, typeOk, Bool.true_and] at hfield
+            cases hl : leafRead (G m n') w kk bits req (st.adaptFor w.sd.unit 1 bo bits) with
+            | none => rw [hl] at hfield; simp at hfield
+            | some v =>
+              simp only at hrd
+              rw [hl] at hrd
+              rw [show n' + 2 + 1 = n' + 3 from rfl, up2r v hrd]
+              simp
 
-/-- non-vacuity: the flat example over `01 00 fe` is Ok and Equals itself. -/
+/-- non-vacuity: the flat example over `01 00 fe` is Ok and Equals itself; so is the `bits`
+container `Bf` over the number 0xa5. -/
 example :
-    (G { structs := [exFlat] } 4).okAt (rootView exFlat [.int 7] [1, 0, 254]) [] = true ∧
-    viewEquals (G { structs := [exFlat] } 4) { structs := [exFlat] } 1
+    (G exNest 4).okAt (rootView exFlat [.int 7] [1, 0, 254]) [] = true ∧
+    viewEquals (G exNest 4) exNest 1
       (rootView exFlat [.int 7] [1, 0, 254]) (rootView exFlat [.int 7] [1, 0, 254]) = true ∧
-    moduleWF { structs := [exFlat] } = true := by
+    moduleWF exNest = true ∧ structWF exNest exFlat = true ∧ structWF exNest exBits = true := by
   decide
 
 end Emboss.View
